@@ -238,7 +238,12 @@ func (p *Parser) deconstructMap(rv reflect.Value, numBuffers *int, undo *[]func(
 				x := reflect.New(mv.Type())
 				x.Elem().Set(n)
 				*undo = append(*undo, func() { rv.SetMapIndex(mk, original) })
-				rv.SetMapIndex(mk, x)
+				if x.Type().AssignableTo(rv.Type().Elem()) {
+					rv.SetMapIndex(mk, x)
+				} else {
+					// The element type of the map is the Binary type itself.
+					rv.SetMapIndex(mk, n)
+				}
 				return nil
 			}
 
@@ -544,7 +549,12 @@ func (r *reconstructor) reconstructMap(rv reflect.Value) error {
 
 					x := reflect.New(mv.Type())
 					x.Elem().Set(n)
-					rv.SetMapIndex(mk, x)
+					if x.Type().AssignableTo(rv.Type().Elem()) {
+						rv.SetMapIndex(mk, x)
+					} else {
+						// The element type of the map is the Binary type itself.
+						rv.SetMapIndex(mk, n)
+					}
 					return nil
 				}
 
